@@ -9,6 +9,11 @@ ops (token syntax in Driver/FwShared.lean):
   drop <peer> <in|out> <packet…6>                   -> pass|remote|peer|local|norule  Firewall.Drop
   clear                                             -> ok          forget all tracked flows
   sleep <ns>                                        -> ok
+  recert <unsafeNetworks>                           -> reloaded <version>   the node's certificate is re-issued with
+                                                       these unsafe networks and Interface.reloadFirewall installs a
+                                                       firewall with the allow-everything configuration (both
+                                                       directions: port any, proto any, host any, local_cidr any; same
+                                                       timeouts and default_local_cidr_any); conntrack is shared
   ipkt …                                            -> <tun> <udp> <pend>   consumeInsidePacket around this firewall (Driver/Inside.lean)
 -/
 import Nebula.Driver.FwShared
@@ -16,6 +21,11 @@ import Nebula.Driver.Inside
 
 namespace Nebula.Driver.Fwrules
 open Nebula.Driver Nebula.Driver.Fw Nebula.Net Nebula.Fw
+
+/-- the rule of the `recert` configuration: port any, proto any, host any, local_cidr any. -/
+def allowAll (incoming : Bool) : Rule :=
+  { incoming := incoming, proto := 0, startPort := 0, endPort := 0, groups := [], host := "any", cidr := .none,
+    localCidr := .any, caName := "", caSha := "" }
 
 def step (s : St) (args : List String) (impl : String) : St × Out :=
   match stepSetup s args impl with
@@ -37,18 +47,34 @@ def step (s : St) (args : List String) (impl : String) : St × Out :=
           setFlow s.flows { pkt := p, expires := 0, lastPass := 0, incoming := inc, epoch := 0 } else s.flows
       -- C17 first, then C16: when the address checks let the packet through, the verdict is the rules'
       let v17 := addrVerdict s.my c p impl
+      -- a tuple the spec tracks (established before the certificate lost the network) is its own class
+      let v17 := if v17 == "bad c17-local-addr-not-own" && tracked then "bad c17-local-addr-not-routable-passed" else v17
       let v16 :=
         if impl == "pass" || impl == "norule" then
           if tracked then expect "c16-tracked-flow-not-honoured" impl "pass"
           else expect "c16-untracked-verdict" impl (if allowed then "pass" else "norule")
         else "ok"
       let tag := "drop:" ++ showVerdict v ++
-        (if v = .pass then (if tracked then ":tracked" else ":rule") else "")
+        (if v = .pass then (if tracked then ":tracked" else ":rule")
+         else if v = .invalidLocal ∧ tracked then ":tracked-unroutable" else "")
       ({ s with sys := sys, flows := flows },
        { model := showVerdict v, verdict := if v17 != "ok" then v17 else v16,
          tag := if v = .invalidRemote ∧ !Spec.Fw.remoteOK s.my c p.remoteAddr ∧ h.host.networks.isNone
                 then "triv:" ++ tag else tag })
     | _, _, _ => (s, badOp)
+  | ["recert", u] =>
+    match prefixesTok u with
+    | some newUnsafe =>
+      let my : Cert := { s.my with unsafeNetworks := newUnsafe }
+      let rules := [allowAll true, allowAll false]
+      let old := s.sys.fw
+      let newFw := (Fw.new my s.dlca old.tcpTimeout old.udpTimeout old.defaultTimeout).addRules rules
+      let sys := s.sys.reloadFirewall true (some newFw)
+      let wrapped := sys.fw.rulesVersion == 0
+      ({ s with sys := sys, my := my, rules := rules, flows := if wrapped then [] else s.flows },
+       { model := s!"reloaded {sys.fw.rulesVersion}",
+         tag := if newUnsafe == s.my.unsafeNetworks then "recert:same" else "recert:changed" })
+    | none => (s, badOp)
   | _ => (s, badOp)
 
 def main : IO Unit := runEngine ({} : St) step
